@@ -30,7 +30,8 @@ fn main() {
     vkit::silence_panics();
     match args[1].as_str() {
         "vec" => vecad::main(&args[2..]),
-        "arc" => arcad::main(&args[2..]),
+        "arc" => arcad::plain::main(&args[2..]),
+        "arc64" => arcad::over::main(&args[2..]),
         "boxes" => boxad::main(&args[2..]),
         "xmod" => xmodad::main(&args[2..]),
         "cview" => cviewad::main(&args[2..]),
